@@ -55,9 +55,13 @@ type opResult struct {
 	Visits []Visit
 	Snap   string
 	Panic  string
+	Stale  string // a WalkerNode handed out by the walk no longer reads what it read at its visit
 }
 
 func (r *opResult) diff(o *opResult) string {
+	if r.Stale != o.Stale {
+		return fmt.Sprintf("retained-nodes %q vs %q", r.Stale, o.Stale)
+	}
 	if r.Panic != o.Panic {
 		return fmt.Sprintf("panic %q vs %q", r.Panic, o.Panic)
 	}
@@ -211,6 +215,7 @@ func execCall(h *hCall, root *gtree.Node, jail string, idx int, yield bool, rw *
 	}
 	res.Out = string(wr.buf)
 	res.Visits = cb.visits
+	res.Stale = cb.staleNodes()
 	if target != "" {
 		res.Snap = snapString(snapshot(target))
 	}
@@ -712,7 +717,7 @@ func caseC03(c *Ctx) {
 			c.Failf("C03:massive-from-root-no-result:"+mop.Kind, "panics=%v hang=%v", o.Panics, o.Hang)
 		}
 		c.failLateEffects("C03", mop, o)
-		got = &opResult{Err: normErr(o.Err, target), Out: string(o.Out), Visits: o.Visits}
+		got = &opResult{Err: normErr(o.Err, target), Out: string(o.Out), Visits: o.Visits, Stale: o.StaleNodes}
 		if target != "" {
 			got.Snap = snapString(snapshot(target))
 		}
